@@ -1,0 +1,129 @@
+//go:build verif
+
+package dastard
+
+// Verification hooks for property C17 (build tag "verif" only): an in-process SourceControl wired
+// the way RunRPCServer wires it, served by the REAL status goroutine (RunClientUpdater) and the REAL
+// record publisher goroutines (startSocket) on ephemeral ports, and a way to hand scripted packet
+// producers (the C03 test double) to the Abaco source that SourceControl.Start starts.
+// No logic of dastard is changed or duplicated here.
+
+import (
+	"fmt"
+	"sync"
+)
+
+var verifC17Once sync.Once
+var verifC17Err error
+
+// VerifC17Control is a SourceControl plus the goroutine that drains its heartbeats channel.
+type VerifC17Control struct {
+	SC     *SourceControl
+	hbStop chan struct{}
+}
+
+// VerifC17NewControl starts (once per process) the status updater and the two record publishers
+// exactly as cmd/dastard and PrepareRun do, except that every port is 0 (= chosen by the system),
+// and returns a fresh SourceControl with the given record lengths.
+func VerifC17NewControl(npre, nsamp int) (*VerifC17Control, error) {
+	verifC17Once.Do(func() {
+		Ports.Status, Ports.Trigs, Ports.Summaries = 0, 0, 0
+		go RunClientUpdater(Ports.Status, make(chan struct{}))
+		if PubRecordsChan == nil {
+			if err := configurePubRecordsSocket(); err != nil {
+				verifC17Err = err
+				return
+			}
+		}
+		if PubSummariesChan == nil {
+			verifC17Err = configurePubSummariesSocket()
+		}
+	})
+	if verifC17Err != nil {
+		return nil, verifC17Err
+	}
+	sc := NewSourceControl()
+	sc.clientUpdates = clientMessageChan
+	ms := newMapServer()
+	ms.clientUpdates = clientMessageChan
+	sc.mapServer = ms
+	sc.status.Npresamp = npre
+	sc.status.Nsamples = nsamp
+	sc.ActiveSource = sc.triangle
+	c := &VerifC17Control{SC: sc, hbStop: make(chan struct{})}
+	// stand-in for the anonymous heartbeat goroutine of RunRPCServer (the only user of totalData)
+	go func() {
+		n := 0
+		for {
+			select {
+			case <-c.hbStop:
+				return
+			case h := <-sc.heartbeats:
+				sc.totalData.HWactualMB += h.HWactualMB
+				sc.totalData.DataMB += h.DataMB
+				sc.totalData.Time += h.Time
+				sc.totalData.Running = h.Running
+				if n++; n%8 == 0 {
+					sc.broadcastHeartbeat()
+				}
+			}
+		}
+	}()
+	return c, nil
+}
+
+// Close ends the heartbeat goroutine (call after the source has been stopped).
+func (c *VerifC17Control) Close() { close(c.hbStop) }
+
+// VerifC17AbacoScript plays the role of ConfigureAbacoSource for scripted producers: the Abaco
+// source of this SourceControl will read from them at the next Start("ABACOSOURCE").  All producers
+// must script the same number of batches.  done is closed when the first producer is asked for the
+// first batch beyond its script; the reader loop then stays parked inside ReadAllPackets until
+// release() is called (afterwards every read returns no packets).
+func (c *VerifC17Control) VerifC17AbacoScript(prods []*VerifScriptedProducer) (done <-chan struct{}, release func(), err error) {
+	if len(prods) == 0 {
+		return nil, nil, fmt.Errorf("no producers")
+	}
+	as := c.SC.abaco
+	d := make(chan struct{})
+	r := make(chan struct{})
+	as.unwrapOpts = AbacoUnwrapOptions{}
+	as.producers = make([]PacketProducer, 0, len(prods))
+	for i, p := range prods {
+		if len(p.Batches) != len(prods[0].Batches) {
+			return nil, nil, fmt.Errorf("producer %d scripts %d batches, producer 0 scripts %d", i, len(p.Batches), len(prods[0].Batches))
+		}
+		p.done, p.release, p.leader = d, r, i == 0
+		as.producers = append(as.producers, p)
+	}
+	var once sync.Once
+	return d, func() { once.Do(func() { close(r) }) }, nil
+}
+
+// VerifC17BlocksRead is the number of blocks the core loop has completely processed (readCounter of
+// the active source).  Only meaningful to a caller that is ordered after the core loop, e.g. inside
+// a queued request; the harness uses VerifC17Sync for that.
+func (c *VerifC17Control) blocksRead() int {
+	switch v := c.SC.ActiveSource.(type) {
+	case *TriangleSource:
+		return v.readCounter
+	case *SimPulseSource:
+		return v.readCounter
+	case *AbacoSource:
+		return v.readCounter
+	case *LanceroSource:
+		return v.readCounter
+	}
+	return 0
+}
+
+// VerifC17Sync runs an empty request through the request queue (like any RPC method that uses
+// runLaterIfActive) and returns the number of blocks processed so far, read inside the core loop.
+func (c *VerifC17Control) VerifC17Sync() (int, error) {
+	n := 0
+	err := c.SC.runLaterIfActive(func() {
+		n = c.blocksRead()
+		c.SC.queuedResults <- nil
+	})
+	return n, err
+}
